@@ -1098,7 +1098,7 @@ pub fn drive_ec(t: &mut Tracer, tier: &str, seed: u64, plan: Option<String>) {
     let vals = boundary_values(P_HEX, &mut rng, if thorough { 30 } else { 6 });
     for (i, (a, ca)) in vals.iter().enumerate() {
         let au = be_u256(a);
-        for f in ["neg", "dbl", "tpl", "to_mont", "from_mont", "inv", "sqrt"] {
+        for f in ["neg", "dbl", "tpl", "to_mont", "from_mont", "inv", "sqrt", "sqr"] {      // (fp_div2 is dead code, known wrong, bound to no property: not driven)
             if !thorough && f == "inv" && i % 3 != 0 { continue; }
             if f == "sqrt" {
                 let o = crate::trace::guard(|| verif::fp_sqrt(&au));
@@ -1107,18 +1107,30 @@ pub fn drive_ec(t: &mut Tracer, tier: &str, seed: u64, plan: Option<String>) {
                 continue;
             }
             let o = gp(|| match f { "neg" => verif::fp_neg(&au), "dbl" => verif::fp_double(&au), "tpl" => verif::fp_triple(&au), "to_mont" => verif::fp_to_mont(&au),
-                                     "from_mont" => verif::fp_from_mont(&au), _ => verif::fp_inv(&au) });
+                                     "from_mont" => verif::fp_from_mont(&au), "sqr" => verif::fp_sqr(&au), _ => verif::fp_inv(&au) });
             let ob = o.ok().map(|x| u256_be(x)).unwrap_or(vec![0u8; 32]);
             t.emit(&sess(), "fp.op", json!({"prop": "C11", "f": f, "cls": ca, "a": bytes(a), "b": bytes(&[0u8; 32]), "out": bytes(&ob), "outcome": o.name(), "detail": o.detail()}));
         }
         for (j, (b, cb)) in vals.iter().enumerate() {
             if !thorough && (i * 5 + j) % 7 != 0 { continue; }
             let bu = be_u256(b);
-            for f in ["add", "sub", "mul"] {
-                let o = gp(|| match f { "add" => verif::fp_add(&au, &bu), "sub" => verif::fp_sub(&au, &bu), _ => verif::fp_mont_mul(&au, &bu) });
+            for f in ["add", "sub", "mul", "tmul"] {
+                let o = gp(|| match f { "add" => verif::fp_add(&au, &bu), "sub" => verif::fp_sub(&au, &bu), "tmul" => verif::fp_mul(&au, &bu), _ => verif::fp_mont_mul(&au, &bu) });
                 let ob = o.ok().map(|x| u256_be(x)).unwrap_or(vec![0u8; 32]);
                 let cls = if *ca == "random" && *cb == "random" { "random" } else if *ca == "random" { cb } else { ca };
                 t.emit(&sess(), "fp.op", json!({"prop": "C11", "f": f, "cls": cls, "a": bytes(a), "b": bytes(b), "out": bytes(&ob), "outcome": o.name(), "detail": o.detail()}));
+            }
+        }
+    }
+    // the trait-level product with operands whose STORED form is 1, 2 or p-1 (not the Montgomery one): shortcuts keyed on "multiplying by one"
+    for (a, ca) in vals.iter() {
+        for sb in [be_add_small(&vec![0u8; 32], 1), be_add_small(&vec![0u8; 32], 2), be_add_small(&hexb(P_HEX), -1)] {
+            for swap in [false, true] {
+                let (x, y) = if swap { (sb.clone(), a.clone()) } else { (a.clone(), sb.clone()) };
+                let (xu, yu) = (be_u256(&x), be_u256(&y));
+                let o = gp(|| verif::fp_mul(&xu, &yu));
+                let ob = o.ok().map(|v| u256_be(v)).unwrap_or(vec![0u8; 32]);
+                t.emit(&sess(), "fp.op", json!({"prop": "C11", "f": "tmul", "cls": format!("{}.stored-special", ca), "a": bytes(&x), "b": bytes(&y), "out": bytes(&ob), "outcome": o.name(), "detail": o.detail()}));
             }
         }
     }
